@@ -70,6 +70,14 @@ CLAIMED["C01"] = dict(
     technique="Coq proof (reduction of the verifier IO object to a closed-form verdict via the C07 multiplexer theorems) + extracted-model / vm_compute correspondence with mutation",
 )
 
+CLAIMED["C19"] = dict(
+    category="proof",
+    text="A reference interpreter of 'jose fmt' written from the manual (coq/Cli/Fmt.v: options, a store of shared mutable values, the -X flag, stdout; set-valued where the manual is silent) with theorems in coq/Props/Properties_C19.v proved for all programs: exit status = 1-based index of the first failing option and nothing executed or printed after it; type-error table; frame lemmas for every option letter (which stack cell / store node changes, everything else unchanged); -X applies exactly once; index conversion; truncation. Tie (translation-validation style): the built jose binary vs the extracted interpreter on all programs of length <= 2 over a 70-instance option alphabet after 6 prefixes plus seeded random programs; the binary's (status, stdout) must lie in the allowed set; disagreements are shrunk to minimal programs.",
+    design_ref="DESIGN.md section 3 C19",
+    note="Coq kernel; no axioms; the reference semantics is the reader's transcription of the manual (the silent spots are listed in coq/Cli/C19_NOTES.md); getopt and file/tty handling are exercised, not modelled; exit status is 8 bits (programs <= 255 options).",
+    technique="Coq proof about a reference semantics + differential check of the binary against the extracted interpreter (outcome-set membership)",
+)
+
 NOT_YET = {}
 
 def main():
